@@ -306,7 +306,7 @@ class C13(Spec):
                   'collection, the teardown in Thread_Init_Run) only ever finalises objects its own thread allocated; C13_teardown_survives_destructor_exceptions - with the epilogue '
                   'order of the current source (collector before exception record, read from the source on every run) no del, collection or thread teardown ever runs a destructor '
                   'without the thread\'s exception record (C13_teardown_old_order_refuted: the order before commit 7de4bbc crashes on a 4-event schedule). C13_source_shape_as_modelled and '
-                  'C13_error_translation_current_source re-check on every run that the 31 source fragments the model mirrors (Thread_Current, GC_Current, Exception_Current, '
+                  'C13_error_translation_current_source re-check on every run that the 32 source fragments the model mirrors (Thread_Current, GC_Current, Exception_Current, '
                   'Thread_Init_Run, Thread_Mark and its instance, Thread_Del, Thread_Assign, the Mark dispatch of GC_Recurse, GC_New/Del, alloc_by/del_by, start_in/stop_in/with, Mutex_*, Thread_Join, the cache macro) and the pthread error translation are the text '
                   'the model was written against. The model is tied to /repo by executing scripted interleavings on real Cello threads (baton) comparing every event outcome, '
                   'and by free-running 2-16 real threads under schedule noise comparing all local outcomes plus digest-vs-solo, ledger, in-section, counter and join oracles.')
